@@ -43,6 +43,8 @@ type scanExt struct {
 	evOrder     []string
 	helpers     map[string]*ast.FuncDecl // step helpers (s *Scanner, c byte) that are not states: inlined at tail calls
 	inlineDepth int
+	preds       map[string]*ast.FuncDecl // pure predicates over one byte: func name(c byte) bool { return <expr> }
+	env         map[string]ast.Expr      // parameters of the helper being inlined -> the argument expressions
 }
 
 var knownConds = map[string]string{
@@ -84,7 +86,7 @@ func parseDir(fset *token.FileSet, dir string, filter func(string) bool) []*ast.
 
 func extractScanner(repo string) (*scanExt, map[string]Code) {
 	x := &scanExt{fset: token.NewFileSet(), consts: map[string]int{}, states: map[string]bool{}, errWrap: map[string]bool{},
-		bodies: map[string]*ast.FuncDecl{}, events: map[string]bool{}, helpers: map[string]*ast.FuncDecl{}}
+		bodies: map[string]*ast.FuncDecl{}, events: map[string]bool{}, helpers: map[string]*ast.FuncDecl{}, preds: map[string]*ast.FuncDecl{}, env: map[string]ast.Expr{}}
 	files := parseDir(x.fset, filepath.Join(repo, "scanner"), nil)
 	// constants (constants.go) and lexeme event names
 	for _, f := range files {
@@ -120,12 +122,8 @@ func extractScanner(repo string) (*scanExt, map[string]Code) {
 	for _, f := range files {
 		for _, d := range f.Decls {
 			fd, ok := d.(*ast.FuncDecl)
-			if ok && fd.Recv == nil && fd.Body != nil && !strings.HasPrefix(fd.Name.Name, "state") {
-				// a step helper: func name(s *Scanner, c byte) *jerr.JApiError — inlined where it is tail-called
-				if pl := fd.Type.Params.List; len(pl) == 2 && typeStr(pl[0].Type) == "*Scanner" && typeStr(pl[1].Type) == "byte" &&
-					len(pl[0].Names) == 1 && pl[0].Names[0].Name == "s" && len(pl[1].Names) == 1 {
-					x.helpers[fd.Name.Name] = fd
-				}
+			if ok && fd.Body != nil && !strings.HasPrefix(fd.Name.Name, "state") {
+				x.collectHelper(fd)
 			}
 			if !ok || fd.Recv != nil || !strings.HasPrefix(fd.Name.Name, "state") || fd.Body == nil {
 				continue
@@ -153,7 +151,7 @@ func extractScanner(repo string) (*scanExt, map[string]Code) {
 			continue
 		}
 		cname := fd.Type.Params.List[1].Names[0].Name
-		codes[name] = x.comp(fd.Body.List, nil, cname)
+		codes[name] = normalize(x.comp(fd.Body.List, nil, cname))
 	}
 	return x, codes
 }
@@ -237,6 +235,14 @@ func (x *scanExt) caseBytes(e ast.Expr, c string) ([]int, bool) {
 func (x *scanExt) cond(e ast.Expr, c string) (func(t, f Code) Code, bool, bool) {
 	// returns (builder, readsCondition, ok)
 	switch t := e.(type) {
+	case *ast.Ident:
+		if v, ok := x.env[t.Name]; ok {
+			saved := x.env
+			x.env = map[string]ast.Expr{} // the argument expression belongs to the caller's scope
+			b, rc, ok := x.cond(v, c)
+			x.env = saved
+			return b, rc, ok
+		}
 	case *ast.ParenExpr:
 		return x.cond(t.X, c)
 	case *ast.UnaryExpr:
@@ -288,6 +294,15 @@ func (x *scanExt) cond(e ast.Expr, c string) (func(t, f Code) Code, bool, bool) 
 		}
 		if name == "isWhitespace" && len(t.Args) == 1 && isIdent(t.Args[0], c) {
 			return func(tt, ff Code) Code { return &IfB{[]int{32, 9}, tt, ff} }, false, true
+		}
+		if p, ok := x.preds[name]; ok && len(t.Args) == 1 && isIdent(t.Args[0], c) && x.inlineDepth < 6 {
+			// a pure predicate over the byte: its defining expression
+			x.inlineDepth++
+			b, rc, ok := x.cond(p.Body.List[0].(*ast.ReturnStmt).Results[0], p.Type.Params.List[0].Names[0].Name)
+			x.inlineDepth--
+			if ok {
+				return b, rc, true
+			}
 		}
 		if strings.HasPrefix(name, "s.") && len(t.Args) == 0 {
 			if cn, ok := knownConds[strings.TrimPrefix(name, "s.")]; ok {
@@ -344,6 +359,21 @@ func (x *scanExt) comp(stmts []ast.Stmt, pre []string, c string) Code {
 	case *ast.AssignStmt:
 		if op, ok := x.effectAssign(t); ok {
 			return x.comp(rest, cp(pre, op), c)
+		}
+		// a local name for a position relative to the current index:  end := s.curIndex - 1
+		if t.Tok == token.DEFINE && len(t.Lhs) == 1 && len(t.Rhs) == 1 && !hasRewind(pre) {
+			if id, ok := t.Lhs[0].(*ast.Ident); ok && x.isIndexExpr(t.Rhs[0]) {
+				saved := x.env
+				env := map[string]ast.Expr{}
+				for k, v := range saved {
+					env[k] = v
+				}
+				env[id.Name] = t.Rhs[0]
+				x.env = env
+				code := x.comp(rest, pre, c)
+				x.env = saved
+				return code
+			}
 		}
 		x.prob(t, "unsupported assignment")
 	case *ast.IncDecStmt:
@@ -445,6 +475,11 @@ func (x *scanExt) comp(stmts []ast.Stmt, pre []string, c string) Code {
 }
 
 func (x *scanExt) stateRef(e ast.Expr) (string, bool) {
+	if id, ok := e.(*ast.Ident); ok {
+		if v, ok := x.env[id.Name]; ok {
+			e = v
+		}
+	}
 	id, ok := e.(*ast.Ident)
 	if !ok || !x.states[id.Name] {
 		return "", false
@@ -462,10 +497,29 @@ func (x *scanExt) eventRef(e ast.Expr) (string, bool) {
 
 func lowerFirst(s string) string { return strings.ToLower(s[:1]) + s[1:] }
 
+// isIndexExpr: s.curIndex or s.curIndex - <literal>
+func (x *scanExt) isIndexExpr(e ast.Expr) bool {
+	if selChain(e) == "s.curIndex" {
+		return true
+	}
+	if be, ok := e.(*ast.BinaryExpr); ok && be.Op == token.SUB && selChain(be.X) == "s.curIndex" {
+		_, ok := byteLit(be.Y)
+		return ok
+	}
+	return false
+}
+
 func (x *scanExt) effectCall(e ast.Expr) (string, bool) {
 	call, ok := e.(*ast.CallExpr)
 	if !ok {
 		return "", false
+	}
+	if selChain(call.Fun) == "s.foundAt" && len(call.Args) == 2 {
+		if id, ok := call.Args[0].(*ast.Ident); ok {
+			if v, ok := x.env[id.Name]; ok && x.isIndexExpr(v) {
+				call = &ast.CallExpr{Fun: call.Fun, Args: []ast.Expr{v, call.Args[1]}}
+			}
+		}
 	}
 	switch selChain(call.Fun) {
 	case "s.found":
@@ -523,6 +577,109 @@ func (x *scanExt) effectAssign(t *ast.AssignStmt) (string, bool) {
 	return "", false
 }
 
+// collectHelper registers step helpers (inlined where they are tail-called) and pure byte predicates.
+//
+//	func name(s *Scanner, …) *jerr.JApiError        func (s *Scanner) name(…) *jerr.JApiError
+//
+// with further parameters of type byte (at most one), bool or stepFunc;   func name(c byte) bool { return <expr> }
+func (x *scanExt) collectHelper(fd *ast.FuncDecl) {
+	res := fd.Type.Results
+	if res == nil || len(res.List) != 1 {
+		return
+	}
+	var params []*ast.Field
+	for _, f := range fd.Type.Params.List {
+		for _, n := range f.Names {
+			params = append(params, &ast.Field{Names: []*ast.Ident{n}, Type: f.Type})
+		}
+	}
+	if typeStr(res.List[0].Type) == "bool" && fd.Recv == nil && len(params) == 1 && typeStr(params[0].Type) == "byte" && len(fd.Body.List) == 1 {
+		if r, ok := fd.Body.List[0].(*ast.ReturnStmt); ok && len(r.Results) == 1 {
+			x.preds[fd.Name.Name] = fd
+		}
+		return
+	}
+	if typeStr(res.List[0].Type) != "*jerr.JApiError" {
+		return
+	}
+	name := fd.Name.Name
+	if fd.Recv != nil {
+		if len(fd.Recv.List) != 1 || len(fd.Recv.List[0].Names) != 1 || fd.Recv.List[0].Names[0].Name != "s" || typeStr(fd.Recv.List[0].Type) != "*Scanner" {
+			return
+		}
+		name = "s." + name
+	} else {
+		if len(params) == 0 || params[0].Names[0].Name != "s" || typeStr(params[0].Type) != "*Scanner" {
+			return
+		}
+	}
+	bytes := 0
+	for _, p := range params {
+		switch typeStr(p.Type) {
+		case "byte":
+			bytes++
+		case "bool", "stepFunc", "*Scanner":
+		default:
+			return
+		}
+	}
+	if bytes > 1 {
+		return
+	}
+	if _, special := map[string]bool{"s.startComment": true, "s.endCommentLine": true, "s.japiErrorUnexpectedChar": true, "s.japiErrorBasic": true, "s.japiError": true, "s.scanEnumBody": true}[name]; special {
+		return
+	}
+	x.helpers[name] = fd
+}
+
+// inlineHelper: the body of a tail-called helper in place; its parameters are bound to the argument expressions.
+func (x *scanExt) inlineHelper(h *ast.FuncDecl, call *ast.CallExpr, pre []string, c string) (Code, bool) {
+	var names []string
+	var types []string
+	for _, f := range h.Type.Params.List {
+		for _, n := range f.Names {
+			names = append(names, n.Name)
+			types = append(types, typeStr(f.Type))
+		}
+	}
+	if len(names) != len(call.Args) || x.inlineDepth >= 4 {
+		return nil, false
+	}
+	saved := x.env
+	env := map[string]ast.Expr{}
+	for k, v := range saved {
+		env[k] = v
+	}
+	byteName := c
+	for i, a := range call.Args {
+		switch types[i] {
+		case "*Scanner":
+			if !isIdent(a, "s") {
+				return nil, false
+			}
+		case "byte":
+			if !isIdent(a, c) {
+				return nil, false
+			}
+			byteName = names[i]
+		default:
+			// an argument that is itself a parameter of the enclosing helper is resolved now
+			if id, ok := a.(*ast.Ident); ok {
+				if v, ok := saved[id.Name]; ok {
+					a = v
+				}
+			}
+			env[names[i]] = a
+		}
+	}
+	x.env = env
+	x.inlineDepth++
+	code := x.comp(h.Body.List, pre, byteName)
+	x.inlineDepth--
+	x.env = saved
+	return code, true
+}
+
 func (x *scanExt) ret(e ast.Expr, pre []string, c string) Code {
 	if isIdent(e, "nil") {
 		return &Leaf{Ops: pre, Cont: "done"}
@@ -533,6 +690,11 @@ func (x *scanExt) ret(e ast.Expr, pre []string, c string) Code {
 		return &Leaf{Ops: pre, Cont: "err"}
 	}
 	name := selChain(call.Fun)
+	if id, ok := call.Fun.(*ast.Ident); ok {
+		if v, ok := x.env[id.Name]; ok {
+			name = selChain(v)
+		}
+	}
 	switch {
 	case x.states[name]:
 		if len(call.Args) == 2 && isIdent(call.Args[0], "s") && isIdent(call.Args[1], c) {
@@ -544,12 +706,8 @@ func (x *scanExt) ret(e ast.Expr, pre []string, c string) Code {
 	case x.errWrap[name]:
 		return &Leaf{Ops: pre, Cont: "err"}
 	case x.helpers[name] != nil:
-		// tail call of a step helper with the scanner and the current byte: its body, in place
-		if len(call.Args) == 2 && isIdent(call.Args[0], "s") && isIdent(call.Args[1], c) && x.inlineDepth < 4 {
-			h := x.helpers[name]
-			x.inlineDepth++
-			code := x.comp(h.Body.List, pre, h.Type.Params.List[1].Names[0].Name)
-			x.inlineDepth--
+		// tail call of a step helper: its body, in place
+		if code, ok := x.inlineHelper(x.helpers[name], call, pre, c); ok {
 			return code
 		}
 	case name == "s.step":
@@ -570,6 +728,98 @@ func (x *scanExt) ret(e ast.Expr, pre []string, c string) Code {
 	}
 	x.prob(e, "unsupported return call %s", name)
 	return &Leaf{Ops: pre, Cont: "err"}
+}
+
+// ---- normal form: two state functions that make the same decisions give the same tree
+
+// spec resolves every byte test of the tree for the byte b (-1 = a byte that no test mentions).
+func spec(c Code, b int) Code {
+	switch t := c.(type) {
+	case *IfB:
+		for _, v := range t.Bytes {
+			if v == b {
+				return spec(t.T, b)
+			}
+		}
+		return spec(t.E, b)
+	case *IfC:
+		tt, ee := spec(t.T, b), spec(t.E, b)
+		if renderCode(tt, "") == renderCode(ee, "") {
+			return tt
+		}
+		return &IfC{t.Cond, tt, ee}
+	case *Leaf:
+		l := &Leaf{Ops: t.Ops, Cont: t.Cont}
+		// `s.step = X; return X(s, c)` and `s.step = X; return s.step(s, c)` are the same continuation
+		if strings.HasPrefix(l.Cont, "call .") {
+			last := ""
+			for _, o := range l.Ops {
+				if strings.HasPrefix(o, ".setStep ") {
+					last = strings.TrimPrefix(o, ".setStep ")
+				}
+				if o == ".popToStep" {
+					last = ""
+				}
+			}
+			if last != "" && last == strings.TrimPrefix(l.Cont, "call ") {
+				l.Cont = "redispatch"
+			}
+		}
+		return l
+	}
+	return c
+}
+
+func mentioned(c Code, into map[int]bool) {
+	switch t := c.(type) {
+	case *IfB:
+		for _, v := range t.Bytes {
+			into[v] = true
+		}
+		mentioned(t.T, into)
+		mentioned(t.E, into)
+	case *IfC:
+		mentioned(t.T, into)
+		mentioned(t.E, into)
+	}
+}
+
+// normalize: the bytes are partitioned by the decision they lead to; one test per class, classes in the order
+// of their smallest byte, the class of the unmentioned bytes last (as the final else).
+func normalize(c Code) Code {
+	vals := map[int]bool{}
+	mentioned(c, vals)
+	def := spec(c, -1)
+	defKey := renderCode(def, "")
+	type class struct {
+		bytes []int
+		tree  Code
+	}
+	byKey := map[string]*class{}
+	var keys []string
+	var sorted []int
+	for v := range vals {
+		sorted = append(sorted, v)
+	}
+	sort.Ints(sorted)
+	for _, v := range sorted {
+		t := spec(c, v)
+		k := renderCode(t, "")
+		if k == defKey {
+			continue
+		}
+		if byKey[k] == nil {
+			byKey[k] = &class{tree: t}
+			keys = append(keys, k)
+		}
+		byKey[k].bytes = append(byKey[k].bytes, v)
+	}
+	var out Code = def
+	for i := len(keys) - 1; i >= 0; i-- {
+		cl := byKey[keys[i]]
+		out = &IfB{cl.bytes, cl.tree, out}
+	}
+	return out
 }
 
 // ---- rendering
